@@ -97,6 +97,7 @@ type result = {
   mutable diffs : string list; mutable fails : (string * string) list;
   mutable nreads : int; mutable nsplit : int; mutable nshort : int; mutable nblocked : int; mutable ntc : int;
   mutable npw : int; mutable crashed : bool; mutable nclosed_bad : int; mutable w2ops : int;
+  mutable dup_retry : bool;   (* some query got two retry-causing answers (REFUSED/SERVFAIL/NOTIMP/TC) on one socket *)
 }
 
 let canon_ev sscb = function
@@ -113,7 +114,8 @@ let analyze (head : string) (fam : string) (lines : string array) : result =
   let chan_flags = z_of_int ((if List.mem "igntc" flags then int_of_z aRES_FLAG_IGNTC else 0)
                              + (if List.mem "nocheckresp" flags then int_of_z aRES_FLAG_NOCHECKRESP else 0)) in
   let r = { cbs = []; txs = []; endstate = ""; diffs = []; fails = []; nreads = 0; nsplit = 0; nshort = 0;
-            nblocked = 0; ntc = 0; npw = 0; crashed = false; nclosed_bad = 0; w2ops = 0 } in
+            nblocked = 0; ntc = 0; npw = 0; crashed = false; nclosed_bad = 0; w2ops = 0; dup_retry = false } in
+  let retry_cnt : (int * int, int) Hashtbl.t = Hashtbl.create 8 in
   let diff s = if List.length r.diffs < 4 then r.diffs <- s :: r.diffs in
   let fail k s = if List.length r.fails < 4 then r.fails <- (k, s) :: r.fails in
   let n = Array.length lines in
@@ -124,6 +126,7 @@ let analyze (head : string) (fam : string) (lines : string array) : result =
   let expect_tcp : (int, unit) Hashtbl.t = Hashtbl.create 4 in
   let tok_sock : (int, int) Hashtbl.t = Hashtbl.create 16 in       (* socket of the last transmission *)
   let np = ref false in
+  let zero_seen = ref false in      (* a zero length datagram was received on some UDP socket *)
   let last_op = ref "" in
   let pure = (fam = "pure") in
   (* pass 1: messages per socket in transmission order; transmissions (line, socket) per token *)
@@ -276,7 +279,12 @@ let analyze (head : string) (fam : string) (lines : string array) : result =
             | PaRetryTcp ->
               (* the query leaves this socket because of this answer: its next transmission must use TCP *)
               let prev_here = (match List.fold_left (fun acc (p, sk') -> if p < q then Some sk' else acc) None (try Hashtbl.find tok_tx t with Not_found -> []) with Some ps -> ps = s.sidx | None -> false) in
+              let c = 1 + (try Hashtbl.find retry_cnt (t, s.sidx) with Not_found -> 0) in
+              Hashtbl.replace retry_cnt (t, s.sidx) c; if c >= 2 then r.dup_retry <- true;
               if oc = `Yes || prev_here then begin Hashtbl.replace expect_tcp t (); r.ntc <- r.ntc + 1 end; None
+            | PaRequeueRcode | PaRetryNoEdns ->
+              let c = 1 + (try Hashtbl.find retry_cnt (t, s.sidx) with Not_found -> 0) in
+              Hashtbl.replace retry_cnt (t, s.sidx) c; if c >= 2 then r.dup_retry <- true; None
             | _ -> None))) msgs in
     if !obs <> [] then okmatch := false;
     (toks, !had_tc, !okmatch) in
@@ -440,7 +448,7 @@ let analyze (head : string) (fam : string) (lines : string array) : result =
                      let bytes = Buffer.sub sk.srv_stream sk.srv_off rc in
                      sk.srv_off <- sk.srv_off + rc;
                      Buffer.add_string sk.got bytes;
-                     if rc > 0 then zero_only := false;
+                     if rc > 0 then begin zero_only := false; sk.mc <- { sk.mc with c_connected = true } end;   (* WReadOk *)
                      RdBytes (int_of_z sk.mb.b_off > 0, zl_of_string bytes, gi < glen - 1)
                    end
                  end else begin
@@ -448,7 +456,7 @@ let analyze (head : string) (fam : string) (lines : string array) : result =
                    else begin
                      let d = Queue.pop sk.dq in
                      if String.length d <> rc then diff (Printf.sprintf "R s%d: datagram length %d, queued %d" k rc (String.length d));
-                     if rc > 0 then zero_only := false else any_zero := true;
+                     if rc > 0 then zero_only := false else begin any_zero := true; zero_seen := true end;
                      RdBytes (int_of_z sk.mb.b_off > 0, zl_of_string d, false)
                    end
                  end
@@ -477,7 +485,8 @@ let analyze (head : string) (fam : string) (lines : string array) : result =
                   let d = Printf.sprintf "s%d read event: model delivers [%s], callbacks [%s]" k
                       (String.concat "," (List.map (fun t -> "t" ^ string_of_int t) pred))
                       (String.concat "," (List.map (fun t -> "t" ^ string_of_int t) obs_cb)) in
-                  if had_tc && not sk.tcp then fail "tc" d else diff ("R " ^ d)
+                  if (not sk.tcp) && !zero_seen then fail "zerolen" ("after a zero length datagram: " ^ d)
+                  else if had_tc && not sk.tcp then fail "tc" d else diff ("R " ^ d)
                 end;
                 sk.cb_seen <- List.rev_append obs_cb sk.cb_seen;
                 if (not sk.tcp) && !any_zero && !zero_only then begin
@@ -520,7 +529,7 @@ let analyze (head : string) (fam : string) (lines : string array) : result =
       if exp <> got then fail "delivery" (Printf.sprintf "s%d: complete frames of the stream answer [%s] in this order, callbacks were [%s]" k
                                             (String.concat "," (List.map string_of_int exp)) (String.concat "," (List.map string_of_int got)))
     end) socks;
-  Hashtbl.iter (fun t () -> fail "tc" (Printf.sprintf "t%d: truncated UDP answer was never retried over TCP" t)) expect_tcp;
+  Hashtbl.iter (fun t () -> fail (if !zero_seen then "zerolen" else "tc") (Printf.sprintf "t%d: truncated UDP answer was never retried over TCP%s" t (if !zero_seen then " (after a zero length datagram)" else ""))) expect_tcp;
   r.cbs <- List.sort compare r.cbs;
   r.txs <- List.rev r.txs;
   r
@@ -564,21 +573,26 @@ let () =
         List.iter (fun (kd, d) -> Printf.printf "FAIL %d %s plain: %s\n" k kd d) (List.rev b.fails);
         (* metamorphic oracle *)
         let servers = match kvi "servers" (words head) with Some v -> v | None -> 1 in
+        (* A query that was transmitted twice on one connection and gets two retry-causing answers:
+           whether the second one is counted depends on whether it is processed in the same
+           read_answers() batch as the first (then the query is detached and the answer dropped)
+           or later (then it hits the re-sent query).  Reported under its own kind. *)
+        let mkind = if a.dup_retry || b.dup_retry then "metamorphic-dup" else "metamorphic" in
         if a.cbs <> b.cbs then begin
           let only x y = List.filter (fun c -> not (List.mem c y)) x in
           let cutl s = if String.length s > 160 then String.sub s 0 160 else s in
-          Printf.printf "FAIL %d metamorphic callbacks differ: segmented-only=[%s] unsegmented-only=[%s]\n" k
+          Printf.printf "FAIL %d %s callbacks differ: segmented-only=[%s] unsegmented-only=[%s]\n" k mkind
             (String.concat " | " (List.map cutl (only a.cbs b.cbs))) (String.concat " | " (List.map cutl (only b.cbs a.cbs)))
         end;
         if servers <= 1 then begin
           if a.txs <> b.txs then begin
             let show l = String.concat "," (List.map (fun (s, h) -> Printf.sprintf "s%d:%s" s (if String.length h > 24 then String.sub h 0 24 else h)) l) in
-            Printf.printf "FAIL %d metamorphic messages at the server differ: segmented=[%s] unsegmented=[%s]\n" k (show a.txs) (show b.txs)
+            Printf.printf "FAIL %d %s messages at the server differ: segmented=[%s] unsegmented=[%s]\n" k mkind (show a.txs) (show b.txs)
           end
         end else begin
           let ms l = List.sort compare (List.map snd l) in
           if ms a.txs <> ms b.txs then
-            Printf.printf "FAIL %d metamorphic multiset of messages received by the servers differs: segmented %d messages, unsegmented %d\n" k (List.length a.txs) (List.length b.txs)
+            Printf.printf "FAIL %d %s multiset of messages received by the servers differs: segmented %d messages, unsegmented %d\n" k mkind (List.length a.txs) (List.length b.txs)
         end
       end) cases;
   Printf.printf "STAT read_events %d\nSTAT reads_completing_a_buffered_frame %d\nSTAT short_writes %d\nSTAT blocked_writes %d\nSTAT tc_upgrades %d\nSTAT w2_ops %d\n"
